@@ -723,12 +723,14 @@ def extras(only=None):
 
 
 def main():
-    hlib.prior_tasks(wide=False)
     p = hlib.payload()
     if p and 'extra' in p:
+        hlib.prior_tasks(wide=False)
         hlib.emit({'extras': extras(only=p['extra'])})
         return
     if p and 'cases' in p:
+        if not p.get('histories'):
+            hlib.prior_tasks(wide=False)      # (a recorded history is replayed as it was found: in a process that offered nothing before)
         res = {'cases': [run_case(c) for c in p['cases']], 'seqs': [run_seq(c) for c in p.get('seqs', [])],
                'histories': [run_history(h) for h in p.get('histories', [])],
                'sweeps': [run_sweep(c) for c in p.get('sweeps', [])]}
@@ -742,6 +744,10 @@ def main():
     hs, sweeps = gen_histories()
     # the histories run first: nothing else has been offered to Function in this process yet
     hist_obs = [run_history(h) for h in hs]
+    # ... and once more after a battery of ordinary tasks has built (and dropped) many Function objects of its own
+    hlib.prior_tasks(wide=False)
+    hist_obs += [run_history(h) for h in hs]
+    hs = hs + hs
     hlib.emit({'history_inputs': hs, 'histories': hist_obs, 'sweep_inputs': sweeps, 'sweeps': [run_sweep(c) for c in sweeps],
                'cases': [run_case(c) for c in gen_cases()], 'seq_inputs': seqs, 'seqs': [run_seq(c) for c in seqs],
                'interface': interface_check(), 'optimizers': optimizer_runs(), 'extras': extras()})
